@@ -348,9 +348,9 @@ theorem c11_unfit_rejected (e : Event) (tx : GoStr) (h : ¬ e.Fits) : ∃ err, t
 
 /-! ## the driver's Spec holds of the model -/
 
-private theorem denotesBytes_iff (f : Val) (b : Bytes) : denotesBytes f = some b ↔ toByteVec f = .ok b := by
+private theorem denotesBytesLenient_iff (f : Val) (b : Bytes) : denotesBytesLenient f = some b ↔ toByteVec f = .ok b := by
   rw [toByteVec_ok_iff]
-  unfold denotesBytes
+  unfold denotesBytesLenient
   cases hf : f.byteVec with
   | none => simp
   | some t =>
@@ -363,6 +363,20 @@ private theorem denotesBytes_iff (f : Val) (b : Bytes) : denotesBytes f = some b
         | some e => simp
     · simp [ht]
 
+private theorem denotesBytes_lenient (f : Val) (b : Bytes) (h : denotesBytes f = some b) : denotesBytesLenient f = some b := by
+  unfold denotesBytes at h
+  unfold denotesBytesLenient
+  cases hf : f.byteVec with
+  | none => simp [hf] at h
+  | some t =>
+    simp only [hf] at h ⊢
+    split at h
+    · rename_i hc; rw [if_pos hc.1]; exact h
+    · cases h
+
+private theorem denotesBytes_toByteVec (f : Val) (b : Bytes) (h : denotesBytes f = some b) : toByteVec f = .ok b :=
+  (denotesBytesLenient_iff f b).mp (denotesBytes_lenient f b h)
+
 private theorem denotesNat_toU256 (f : Val) (n : Nat) (h : denotesNat f = some n) : toU256 f = .ok (n : Int) := by
   rw [toU256_ok_iff]
   unfold denotesNat at h
@@ -371,7 +385,7 @@ private theorem denotesNat_toU256 (f : Val) (n : Nat) (h : denotesNat f = some n
   | some t =>
     simp only [hf] at h
     split at h
-    · rename_i ht; exact ⟨t, rfl, ht, parseInt_of_parseNat h⟩
+    · rename_i ht; exact ⟨t, rfl, ht.1, parseInt_of_parseNat h⟩
     · cases h
 
 private theorem denotesNatLenient_iff (f : Val) (n : Nat) : denotesNatLenient f = some n ↔ toU256 f = .ok (n : Int) := by
@@ -403,19 +417,32 @@ theorem c11_fit_fields_decoded (fields : List Val) (tx : GoStr) (m : Msg) (h : f
       · rename_i hr
         cases h
         obtain ⟨l0, l1, l2, l3, l5⟩ := hr
-        exact c11_fit_fields_accepted _ _ _ _ _ _ tx s n p t q c ((denotesBytes_iff _ _).mp d0) l0 (denotesNat_toU256 _ _ d1) l1
-          (denotesNat_toU256 _ _ d2) l2 ((denotesBytes_iff _ _).mp d3) l3 ((denotesBytes_iff _ _).mp d4) (denotesNat_toU256 _ _ d5) l5
+        exact c11_fit_fields_accepted _ _ _ _ _ _ tx s n p t q c (denotesBytes_toByteVec _ _ d0) l0 (denotesNat_toU256 _ _ d1) l1
+          (denotesNat_toU256 _ _ d2) l2 (denotesBytes_toByteVec _ _ d3) l3 (denotesBytes_toByteVec _ _ d4) (denotesNat_toU256 _ _ d5) l5
       · cases h
     · cases h
   · cases h
+
+/-- The Spec's "must be accepted" domain contains every in-range event as the node renders it (so the driver's
+`fit-rejected` clause is exactly the first half of the statement). -/
+theorem c11_render_is_fit (e : Event) (tx : GoStr) (h : e.Fits) :
+    fitEvent e.render tx = some { txId := tx, sender := e.sender, target := e.target, nonce := unbe e.nonce,
+                                  payload := e.payload, sequence := e.sequence, cl := e.cl } := by
+  have hb : ∀ b, denotesBytes (.ofByteVec (encodeHex b)) = some b := by
+    intro b; simp [denotesBytes, Val.ofByteVec, isLowerHex_encodeHex, decodeHex_encodeHex]
+  have hn : ∀ n, denotesNat (.ofU256 (decBytes n)) = some n := by
+    intro n; simp [denotesNat, Val.ofU256, isCanonicalNumeral_decBytes, parseNat_decBytes]
+  obtain ⟨l0, l1, l2, l3, l5⟩ := h
+  simp only [fitEvent, Event.render, hb, hn]
+  rw [if_pos ⟨l0, l1, l2, l3, l5⟩]
 
 /-- Everything the model accepts is the event the fields denote under the lenient reading (sign `+`, `-0`). -/
 theorem c11_accepted_denoted (fields : List Val) (tx : GoStr) (m : Msg) (h : toWormholeMessage fields tx = .ok m) :
     fitEventLenient fields tx = some m := by
   obtain ⟨f0, f1, f2, f3, f4, f5, nonce, rfl, a0, b0, a1, b1, a2, b2, a3, b3, hn, a4, a5, b5, htx⟩ := c11_accepted_exact _ _ _ h
   unfold fitEventLenient
-  simp only [(denotesBytes_iff _ _).mpr a0, (denotesNatLenient_iff _ _).mpr a1, (denotesNatLenient_iff _ _).mpr a2,
-    (denotesBytes_iff _ _).mpr a3, (denotesBytes_iff _ _).mpr a4, (denotesNatLenient_iff _ _).mpr a5]
+  simp only [(denotesBytesLenient_iff _ _).mpr a0, (denotesNatLenient_iff _ _).mpr a1, (denotesNatLenient_iff _ _).mpr a2,
+    (denotesBytesLenient_iff _ _).mpr a3, (denotesBytesLenient_iff _ _).mpr a4, (denotesNatLenient_iff _ _).mpr a5]
   rw [if_pos ⟨b0, b1, b2, b3, b5⟩]
   cases m
   simp_all
@@ -424,18 +451,19 @@ theorem c11_accepted_denoted (fields : List Val) (tx : GoStr) (m : Msg) (h : toW
 field list and transaction id: fit ⇒ accepted with exactly the denoted values, accepted ⇒ denoted, never wrapped. -/
 theorem c11_model_meets_spec (fields : List Val) (tx : GoStr) :
     specMsg fields tx (match toWormholeMessage fields tx with | .ok m => some m | .error _ => none) = none := by
+  have hsame : ∀ m : Msg, m.sameValues m = true := by intro m; simp [Msg.sameValues]
   unfold specMsg
   cases hfit : fitEvent fields tx with
   | some m =>
     rw [c11_fit_fields_decoded _ _ _ hfit]
-    simp
+    simp [hsame]
   | none =>
     cases hres : toWormholeMessage fields tx with
     | error e => rfl
     | ok o =>
       simp only
       rw [c11_accepted_denoted _ _ _ hres]
-      simp
+      simp [hsame]
 
 /-! ## publication -/
 
